@@ -11,12 +11,15 @@ CLAIMED = {
     'C01': dict(
         text="Postconditions transcribed from the reference sentences on the real Take (cyclic extension both ways, any count, any "
              "length), Drop (every integer incl. overshoot), First, Reverse (atoms unchanged), Rotate (outer axis, rank-aware roll "
-             "contract), Split by one size (ceil(n/s) members, the last one short) and the string Find generator (first match at or "
+             "contract), Split by one size (ceil(n/s) members, the last one short) and by several sizes used cyclically (loop invariant "
+             "over spec functions), Cut (members between the given positions, explicit-position array_split contract), At/Index on "
+             "sequences, Integer-Divide on atoms (floor toward minus infinity) and the string Find generator (first match at or "
              "after the previous one + 1, terminates), over sequences of arbitrary length; predicate truth tables over the class "
-             "lattice and the verb dispatch tables. Take's remainder arithmetic rests on seven Lean-checked integer lemmas.",
-        note="Partial: arithmetic/comparison/min/max ufunc verbs, grade, group, shape, transpose, amend, reshape, match, index, range, "
+             "lattice and the verb dispatch tables. Take's remainder arithmetic rests on seven Lean-checked integer lemmas. Match: "
+             "bounded stand-in only (nested / ragged operands up to a stated size, labelled).",
+        note="Partial: arithmetic/comparison/min/max ufunc verbs, grade, group, shape, transpose, amend, reshape, range, "
              "format are NOT under contract (NumPy ufunc semantics would be an assumed contract). Assumed: NumPy tile/concatenate/roll/"
-             "slicing contracts as stated in contracts/c01.py; operands are vectors or outer axes; numpy backend.",
+             "array_split/slicing contracts as stated in contracts/c01.py; operands are vectors or outer axes; numpy backend.",
         ref="DESIGN.md section 4 C01",
         technique=TECH + "; cvc5 first for the sequence-heavy Take/Split goals; Lean 4 for the modular-arithmetic lemmas"),
     'C02': dict(
@@ -68,7 +71,8 @@ CLAIMED = {
              "(bounded below, strictly decreasing), the mutual recursion decreases the lexicographic measure (len(t)+1-i, rank), progress "
              "postconditions on every reader. Work bound: ghost `frontier` discipline - every parser-level reader starts at or after the "
              "position up to which the text has been consumed, and nothing is parsed after a caught parse error (no backtracking). No "
-             "effect on variables: the evaluator entries carry `requires false` for callers inside the parser. Unbounded in the input; "
+             "effect on variables: the evaluator entries carry `requires false` for callers inside the parser, and no parser function "
+             "stores into the interpreter object (frame: the parser holds no state between parses). Unbounded in the input; "
              "discharged by z3 from VCs generated from the current source.",
         note="Assumed: termination of callees outside the parser (get_fn_arity, is_empty, backend.kg_asarray, node constructors); Python ints "
              "mathematical; pyvc's encoding of the accepted Python subset; the step from 'no re-parse' to 'linear number of reader calls' "
@@ -80,8 +84,9 @@ CLAIMED = {
              "exceptional exit the scope sequence (same objects, same order, same minimum) is what it was at entry, whatever the body "
              "does and wherever it raises; KlongContext as a stack of finite maps (push/pop/innermost lookup/assignment to the first "
              "holder/deletion with whole-stack frames); a conditional evaluates its test once and exactly one branch chosen by Klong "
-             "truth (ghost evaluation log). Projection flattening: merge_projections == 'fill holes left to right at every step' "
-             "checked exhaustively on the real function over the language's domain (bounded, labelled).",
+             "truth (ghost evaluation log); every scope pushed for a function call binds .f to the function being applied. Projection "
+             "flattening: merge_projections == 'fill holes left to right at every step' checked exhaustively on the real function over "
+             "the language's domain incl. array-valued arguments (bounded, labelled).",
         note="Assumed: verb functions, Python callables and compiled expressions are stack-preserving; the documented .module exception "
              "(ghost flag); module-scope lookup rules not under contract; the positional construction of the call frame in _eval_fn is "
              "not yet under contract; substitution semantics of whole bodies is a whole-evaluator statement and not decided.",
@@ -105,7 +110,9 @@ CLAIMED = {
              "function being an arbitrary callee that may raise at any call: every parameter symbol is bound to the same object as at "
              "entry (ghost binding map; restore-in-finally of call_fn_with_tensors / single_param_fn / eval_dyad_grad.func), and the "
              "contents of every array of the caller are unchanged (alias-aware: np.asarray may return its argument, element assignment "
-             "writes in place, read/write array lemmas instantiated at each write).",
+             "writes in place, read/write array lemmas instantiated at each write); what a restoring closure assumes about its saved "
+             "originals is an obligation where the closure is created; the torch gradient helpers neither switch gradient tracking on "
+             "nor write in place on a tensor the caller holds (ownership typing).",
         note="Assumed: NumPy aliasing/copy contracts as stated, the differentiated function neither rebinds the symbols under "
              "differentiation nor writes arrays in place, composition of the C03/C09 context contracts as the binding map; torch's "
              "compute_* functions (external) not under contract; values of gradients are C06 (not applicable).",
@@ -115,7 +122,8 @@ CLAIMED = {
              "an abstract finite map (ghost domain/value maps): the result IS the operand dictionary, view' = view[k -> v] resp. view minus k "
              "with all other keys of all dictionaries unchanged, missing key -> :undefined, f applied once per pair with the pair as "
              "argument; the string+string branch cannot capture a dictionary; a literal is parsed into a call of copy_lambda whose body "
-             "is a deep copy (AST-structural checks).",
+             "is a deep copy (AST-structural checks); binding a dictionary to a name (klong[k]=d, a::d) stores that very object "
+             "(aliases stay aliases).",
         note="Assumed: Python dict as a finite map keyed by hash/== with items() yielding each pair once; deepcopy returns a fresh equal "
              "object; the induction over operation histories from the per-operation contracts is the standard ADT argument (stated); "
              "At/Index on dictionaries not under contract.",
@@ -125,8 +133,8 @@ CLAIMED = {
              "read_string(t,i) = dec(t,i) against positional spec functions; Lean proves dec(enc s ++ '\"' ++ tail) = (s, |enc s|+1) "
              "under the follow condition; characters (0cX), symbols (:name) and the dispatch order of kg_write over the class lattice. "
              "read_list returns exactly the sequence of lexeme values between the brackets, in order (whole-view loop invariant: no "
-             "member is re-interpreted). Numbers, dictionaries, whole lists end-to-end and Form/Format: bounded stand-in per value kind "
-             "only (labelled, not counted as proved).",
+             "member is re-interpreted). Numbers, dictionaries, whole lists end-to-end, Form/Format and the round trip through a file "
+             "(.w then .r): bounded stand-in per value kind only (labelled, not counted as proved).",
         note="Assumed: hand pairing of the SMT / Python / Lean renderings of the spec functions (narrowed by a bounded cross-check each "
              "run); float/int repr round trips. Known finding: a written dictionary reads back as an unevaluated call object.",
         ref="DESIGN.md section 4 C11",
@@ -137,17 +145,21 @@ CLAIMED = {
              "order and touch nothing else; commit empties the buffer; .insert validates the column count and routes single rows / "
              "batches; has_index <=> idx_cols is not None; set_index/reset_index commit first and keep idx_cols consistent. Indexed "
              "tables: Table.commit against the merge specification over abstract frames - never raises, the new frame has one row per "
-             "key (the last inserted of the buffer, else the stored row), is sorted, and holds exactly the stored and buffered keys.",
+             "key (the last inserted of the buffer, else the stored row), is sorted, and holds exactly the stored and buffered keys. "
+             ".db: at the call of con.execute every table name is bound to the frame that table's get_dataframe() returned in THIS "
+             "invocation (loop invariant over the table map; a frame remembered from an earlier query does not satisfy it).",
         note="Assumed: pandas contracts as stated in contracts/c19_commit.py (intersection, loc selection / aligned assignment raising "
-             "on duplicate labels, isin, duplicated, drop_duplicates(subset), concat, sort_index not stable) and DuckDB; the unindexed "
-             "append order rests on the NumPy concatenate contract; SQL results are NOT decided.",
+             "on duplicate labels, isin, duplicated, drop_duplicates(subset), concat, sort_index not stable); DuckDB resolves a table name "
+             "to the frame bound in the calling frame and computes the query over it (the SQL result itself is NOT decided); the unindexed "
+             "append order rests on the NumPy concatenate contract.",
         ref="DESIGN.md section 4 C19, Appendix A.6"),
     'C13': dict(
         text="Frame codec of the real IPC transport: encode_message(id,m) = id.bytes ++ be32(|p|) ++ p; over a ghost stream and cursor, "
              "stream_recv_msg returns (id, loads(p)) and advances the cursor by exactly 20+|p| whenever the stream at the cursor starts "
              "with that frame - consecutive frames are delivered one by one, in order, from any cursor; request construction "
              "(f(:name,args) -> KGRemoteFnCall, function proxy passes the first `arity` of x,y,z, dictionary get/set commands); the "
-             "listener answers under the same message id; KGUndefined pickles by reference (AST-structural + native identity check).",
+             "listener answers under the same message id with exactly the value the server-side evaluation returned (no reshaping of "
+             "the reply); KGUndefined pickles by reference (AST-structural + native identity check).",
         note="Assumed: StreamReader.readexactly returns the next n bytes however they arrived (this carries 'however the stream is "
              "split'); pickle/struct/uuid codecs inverse on their domains. Not decided: value equivalence of pickled values and the "
              "server-side evaluation.",
@@ -158,7 +170,8 @@ CLAIMED = {
              "_cleanup_pending_responses needs an exception instance unless the table is empty, visits every pending future and leaves "
              "the table empty; every iteration of _run's connection loop runs the cleanup exactly once on every exit path with its "
              "precondition satisfied, under arbitrary interference at the awaits (running may flip, calls may register futures); "
-             "NetworkClient.call has registered its future under the request id before the request can reach the wire; on every exit "
+             "NetworkClient.call has registered its future under the request id before the request can reach the wire and sends on the "
+             "writer the listener owns; a frame that cannot be decoded fails the connection (it is not skipped); on every exit "
              "path execute_server_command has completed the request's result future exactly once (unless the event loop itself refused).",
         note="NOT decided: liveness ('never hangs', prompt failure after loss), the is_open-then-register window between threads, close "
              "racing with calls. Assumed: asyncio run-to-completion between awaits, Future contracts, the C13 transport contracts.",
@@ -168,15 +181,22 @@ CLAIMED = {
              "is held (an obligation at each access); at every acquire the guarded state is havocked and the monitor invariant G "
              "(accounting == sum of counted entries, 0 <= cur <= max, heap/table consistency, claims carry 0 bytes) assumed, at every "
              "release G is proved; the source asserts are obligations under that havoc; waits on futures happen with the lock released; "
-             "the writer task clears an entry's writing flag only after the file holds the new contents.",
-        note="NOT decided: linearizability of returned values, progress, PandasDataFrameCache's per-file append lock. Assumed: "
-             "threading.Lock mutual exclusion; tasks run at any time on other threads; msum lemmas (Lean).",
+             "the writer task clears an entry's writing flag only after the file holds the new contents; a load that finishes while a "
+             "write of the file is pending leaves the entry to the write. Table cache: the per-file append lock protocol of "
+             "PandasDataFrameCache.update as rely/guarantee - append_locks only touched under the cache lock, a lock registered only when "
+             "none is registered in the same critical section, the read-merge-write runs under the registered lock, and no lock is "
+             "acquired while this thread holds it (the retry's precondition).",
+        note="NOT decided: linearizability of returned values, progress in general (only 'no self-deadlock on a non-reentrant lock'). "
+             "Assumed: threading.Lock mutual exclusion; tasks run at any time on other threads; msum lemmas (Lean); the rely of the "
+             "append-lock argument (other threads keep the same protocol); WeakValueDictionary keeps an entry while a strong reference "
+             "exists.",
         ref="DESIGN.md section 4 C18"),
     'C20': dict(
         text="Per-request handler contract on the real closures (_get/_post): the route's handler is called exactly once with "
              "dict(query)/dict(form), the response is str(result); any failure gives status 400 and escapes nowhere; the closure "
              "registered by an iteration of the route loops captures that iteration's handler and route, wraps Klong functions in "
-             "KGFnWrapper and skips non-monads and calls; shutdown cancels the task and cleans the runner once; websocket _listen "
+             "KGFnWrapper and skips non-monads and calls; shutdown cancels the task and cleans the runner once; .webc given the handle "
+             ".web returned shuts that server down exactly once and returns 1 (0 for anything else); websocket _listen "
              "receives, decodes and dispatches one message to .ws.m exactly once in order; the connection is pushed for the call and "
              "popped on every exit; result or failure delivered to the waiting future exactly once.",
         note="Assumed: aiohttp routing and request parsing, websockets, JSON codec, sockets ('after .webc the port no longer answers' "
@@ -185,13 +205,16 @@ CLAIMED = {
         ref="DESIGN.md section 4 C20"),
     'C15': dict(
         text="Representation invariant of the real KGTimerHandler / _call_periodic / run closure over ghost state (stopped flag, number of "
-             "live loop handles): at most one live handle, none once stopped; .timerc returns 1 exactly when it stopped a live timer; the "
-             "next tick is scheduled exactly at the next interval boundary after now (floor by a skolem constant, independent of how the "
-             "code computes the delay); callback invoked exactly once per tick; argument validation and KGFnWrapper wrapping in .timer. "
-             "Holds for every callback behaviour admitted by the rely condition (cancel self, return anything, raise).",
-        note="Assumed: asyncio loop contract (handles fire at most once, not before their time, never after cancel; run-to-completion), "
-             "floats as reals, no time passes between evaluating call_later's delay and its reading the clock, callbacks reach the timer only "
-             "through cancel(). Behaviour after a callback raises is not specified by the property and not constrained.",
+             "live loop handles): at most one live handle, none once stopped; .timerc returns 1 exactly when it stopped a live timer; a "
+             "tick that serves boundary m and ends at `now` schedules the next one exactly at boundary max(m, floor((now-start)/interval))+1 "
+             "(floor by a skolem constant, independent of how the code computes it): never twice for one boundary, not in the past, no "
+             "boundary skipped that was not missed - also when the loop dispatched the tick up to its clock resolution BEFORE the deadline; "
+             "the timer goes on exactly when the callback returned a true value and did not stop it; callback invoked exactly once per "
+             "tick; argument validation and KGFnWrapper wrapping in .timer. Holds for every callback behaviour admitted by the rely "
+             "condition (cancel self, return anything, raise).",
+        note="Assumed: asyncio loop contract (handles fire at most once, not earlier than the clock resolution before their time, never "
+             "after cancel; run-to-completion; resolution < interval), floats as reals, callbacks reach the timer only through cancel(). "
+             "Behaviour after a callback raises is not specified by the property and not constrained.",
         ref="DESIGN.md section 4 C15, Appendix A.2"),
     'C16': dict(
         text="Single-client proof over the symbolic image of FileCache: quiescent invariant Q (accounting cur == sum of counted entries via "
@@ -202,7 +225,8 @@ CLAIMED = {
              "contents == ser(v), other paths untouched; get == deser(file) cached or not; never-set / directory key reads :undefined. "
              "Table store: PandasDataFrameCache.update against the documented merge over abstract frames (stored rows win on equal index, "
              "new index values added, result unique and sorted) with pandas' concat / duplicated / sort_index (NOT stable) as assumed "
-             "contracts.",
+             "contracts; a table handed out by TableStorage.get is a new object whose frame shares nothing with the cache entry "
+             "(ownership typing of Table.__init__ and TableStorage.get).",
         note="Assumed: single client (a task runs when its submitter waits for it), ghost file model, pickle round trip, join injective on "
              "normalised keys, library contracts of dict/heapq/Lock/ThreadPoolExecutor/pandas, msum lemmas (Lean); the table merge uses "
              "get_file/update_file as abstract consequences of the FileCache contracts (assumed link). Not decided: LRU order, alias "
